@@ -12,6 +12,7 @@ import (
 	"time"
 
 	"github.com/olric-data/olric/internal/verif/clustermc"
+	"github.com/olric-data/olric/internal/verif/confx"
 	"github.com/olric-data/olric/internal/verif/sched"
 	"github.com/olric-data/olric/internal/verif/simcluster"
 )
@@ -545,6 +546,102 @@ func (s *Sys) CheckVisible() []Fail {
 		}
 	}
 	return fs
+}
+
+// ConformTraces enumerates every sequence of length 1..maxLen over the time-free, placement-
+// independent part of the alphabet, runs it on the simulated stack and records the observations:
+// the traces the conformance replayer repeats on the unmodified stack.
+func ConformTraces(p *Params, maxLen, cap int) []confx.Trace {
+	var alpha []Ev
+	for _, e := range p.Alpha {
+		switch e.K {
+		case "get", "del", "getput", "incr", "decr", "expire":
+			alpha = append(alpha, e)
+		case "put":
+			if e.S == "" || e.S == "NX" || e.S == "XX" || e.S == "PX" || e.S == "NX+PX" {
+				alpha = append(alpha, e)
+			}
+		case "lock":
+			if e.B == 0 {
+				alpha = append(alpha, e)
+			}
+		case "unlock", "lease":
+			if e.B == 0 {
+				alpha = append(alpha, e)
+			}
+		}
+	}
+	var out []confx.Trace
+	run := func(path []Ev) {
+		s := New(p)
+		t := confx.Trace{ID: fmt.Sprintf("%s/%d", p.Name, len(out)), Members: p.Opts.N, R: p.Opts.Replicas, Entry: p.Entry}
+		for _, e := range path {
+			key := p.Keys[e.A]
+			hadTok := s.LastTok[key] != nil
+			if (e.K == "unlock" || e.K == "lease") && !hadTok {
+				return // a forged token cannot be presented through the public API
+			}
+			if fs := s.Apply(e); len(fs) > 0 {
+				return // a violating path is reported by the search itself, not replayed
+			}
+			if s.Untracked[key] {
+				return
+			}
+			r := s.LastRes
+			st := confx.Step{Op: e.K, Key: key, Err: strings.SplitN(r.Err, ":", 2)[0]}
+			tok := func(v []byte) string {
+				n := s.tokName(v)
+				if strings.HasPrefix(n, "tok#") {
+					return "<token>"
+				}
+				return n
+			}
+			switch e.K {
+			case "put":
+				st.Opt, st.Val = e.S, putValues[e.S]
+			case "get":
+				st.Out = tok(r.Val)
+			case "getput":
+				st.Val, st.Nil = "120", r.Nil
+				if !r.Nil && r.Err == "" {
+					st.Out = tok(r.Val)
+				}
+			case "incr", "decr":
+				st.Delta, st.N, st.HasN = e.B, r.N, r.Err == ""
+			case "unlock", "lease":
+				st.Own = true
+			}
+			t.Steps = append(t.Steps, st)
+		}
+		out = append(out, t)
+	}
+	// all sequences of length 1, then 2, ... so that a cap only cuts the longest ones
+	for l := 1; l <= maxLen && len(out) < cap; l++ {
+		idx := make([]int, l)
+		for {
+			path := make([]Ev, l)
+			for i, j := range idx {
+				path[i] = alpha[j]
+			}
+			run(path)
+			if len(out) >= cap {
+				break
+			}
+			k := l - 1
+			for k >= 0 {
+				idx[k]++
+				if idx[k] < len(alpha) {
+					break
+				}
+				idx[k] = 0
+				k--
+			}
+			if k < 0 {
+				break
+			}
+		}
+	}
+	return out
 }
 
 // Spec wraps the parameters as a clustermc search space.
